@@ -348,6 +348,7 @@ impl Interp {
                 }
             }
             NameSel::Invalid(i) => INVALID_NAMES[*i as usize % INVALID_NAMES.len()].to_string(),
+            NameSel::Fresh(i) => format!("F{}.TMP", i),
             NameSel::Dot => ".".to_string(),
             NameSel::DotDot => "..".to_string(),
         }
